@@ -381,6 +381,27 @@ impl Check for C13 {
         let mut flags = vec![];
         let edit_case = i % 2 == 1;
         add_specials(&mut mr, &mut model, &mut flags, !edit_case);
+        // several mappings for instantiations of one generic, none of them the one the sources
+        // use: `Id<A>` and `Id<B>` are mapped, a field has type `Id<C>` (the model is complete
+        // BEFORE any edit is derived from it)
+        let mut generic_mappings: Vec<(String, String)> = vec![];
+        if setup.conf != ConfSrc::Flags && (i / 8) % 5 == 3 {
+            let local = model.serde_type_names();
+            if local.len() >= 3 {
+                let mut xr = r.split("generic-mapping");
+                let target = local[2].clone();
+                let reach = crate::edits::reachable_types(&model);
+                let holder: Option<String> = model.structs().iter().find(|s| s.serde && reach.contains(&s.name)).map(|s| s.name.clone());
+                if let Some(h) = holder {
+                    if let Some(st) = model.struct_mut(&h) {
+                        st.fields.push(Field { name: format!("generic_id_{}", xr.range(1, 99)), ty: Ty::Gen("Id".into(), vec![Ty::Named(target)]), public: true, rename: None, skip: false, validate: None });
+                        generic_mappings.push((format!("Id<{}>", local[0]), "AId".into()));
+                        generic_mappings.push((format!("Id<{}>", local[1]), "BId".into()));
+                        generic_mappings.push(("Id<u64>".into(), "NumId".into()));
+                    }
+                }
+            }
+        }
         let cfg = super::c14::gen_cfg(&mut r.split("cfg"), &setup);
         let mut pr = r.split("procs");
         let s = if edit_case {
@@ -416,23 +437,8 @@ impl Check for C13 {
                 cfg.mappings.insert(xr.pick(&local).clone(), xr.pick(&["string", "number"]).to_string());
             }
         }
-        if setup.conf != ConfSrc::Flags && (i / 8) % 5 == 3 {
-            // several mappings for instantiations of one generic, none of them the one the sources
-            // use: `Id<A>` and `Id<B>` are mapped, a field has type `Id<C>`
-            let local = model.serde_type_names();
-            if local.len() >= 3 {
-                let mut xr = r.split("generic-mapping");
-                cfg.mappings.insert(format!("Id<{}>", local[0]), "AId".into());
-                cfg.mappings.insert(format!("Id<{}>", local[1]), "BId".into());
-                cfg.mappings.insert("Id<u64>".into(), "NumId".into());
-                let target = local[2].clone();
-                let holder: Option<String> = model.structs().iter().find(|s| s.serde && crate::edits::reachable_types(&model).contains(&s.name)).map(|s| s.name.clone());
-                if let Some(h) = holder {
-                    if let Some(st) = model.struct_mut(&h) {
-                        st.fields.push(Field { name: format!("generic_id_{}", xr.range(1, 99)), ty: Ty::Gen("Id".into(), vec![Ty::Named(target)]), public: true, rename: None, skip: false, validate: None });
-                    }
-                }
-            }
+        for (k, v) in generic_mappings {
+            cfg.mappings.insert(k, v);
         }
         let (setup_cwd, setup_conf) = (setup.cwd, setup.conf);
         // flag overrides exist on the CLI only: such a configuration cannot be shared
